@@ -45,10 +45,9 @@ func (t *terminal) pushKeyboardFlags(flags int) {
 	km.flags = flags
 }
 
+// popKeyboardFlags pops n entries; the caller supplies the default of 1 for an
+// omitted count, an explicit 0 pops nothing.
 func (t *terminal) popKeyboardFlags(n int) {
-	if n <= 0 {
-		n = 1
-	}
 	km := t.keyboardMode()
 	for i := 0; i < n; i++ {
 		if len(km.stack) == 0 {
